@@ -192,21 +192,21 @@ func runC01Config(cfg c01Config) *c01Result {
 	var res *gResult
 	execs := 0
 	if cfg.Mode == "dev" {
-		var pre uint64
+		var pre allowSet
 		for mi, m := range bag {
 			mm := x.mt.msgs[m]
 			switch cfg.Strategy {
 			case "own": // pushes its own block X: proposes it whenever it is proposer and votes for it in every round
 				if mm.Block == "X" {
-					pre |= 1 << uint(mi)
+					pre.add(mi)
 				}
 			case "nil": // votes nil in every round
 				if (mm.Kind == "prevote" || mm.Kind == "precommit") && mm.Block == "nil" {
-					pre |= 1 << uint(mi)
+					pre.add(mi)
 				}
 			case "echo": // votes for every block the correct proposers propose (equivocating across values)
 				if (mm.Kind == "prevote" || mm.Kind == "precommit") && strings.HasPrefix(mm.Block, "B") {
-					pre |= 1 << uint(mi)
+					pre.add(mi)
 				}
 			}
 		}
